@@ -13,6 +13,7 @@
 mod atoms;
 mod checks;
 mod corpus;
+mod holders;
 mod compose;
 #[cfg(feature = "native")]
 mod isolate;
